@@ -217,17 +217,28 @@ func checkC15(t *testing.T, c *c15Case, rec *Recorder) []Diff {
 		if o.Err == nil || o.Res != nil {
 			add("partial-success", "%d injected failures fired but the request returned a result (err=%v)", fired, o.Err)
 		} else {
+			// a run ends at its first failure; when the scheduler gave one run a failing sink and a failing source
+			// (sink i and source i need not belong to the same run), either failure may be the one it reports
+			shown := map[int]bool{}
 			for _, s := range o.Wire.Fired {
-				if !exposes(o.Err, s) {
+				if exposes(o.Err, s) {
+					shown[o.Wire.OwnerOf(s)] = true
+				}
+			}
+			for _, s := range o.Wire.Fired {
+				if !shown[o.Wire.OwnerOf(s)] {
 					add("failure-hidden", "%v fired but is not reachable through the returned error: %v", s, o.Err)
 				}
 			}
 			if j, ok := o.Err.(interface{ Unwrap() []error }); ok {
 				n := len(j.Unwrap())
-				// every fired fault aborts exactly one run; two faults can hit the same run only if its sink and
-				// source indices were both selected, which the index-disjoint generator excludes
+				// every failed run contributes exactly one member
 				// a cancelled context can fail further runs (those that honour it) on top of the injected failures
-				if n != fired && !(cancelled && n > fired) {
+				owners := map[int]bool{}
+				for _, s := range o.Wire.Fired {
+					owners[o.Wire.OwnerOf(s)] = true
+				}
+				if n != len(owners) && !(cancelled && n > len(owners)) {
 					add("failure-count", "joined error has %d members, %d runs/probes failed", n, fired)
 				}
 			} else if fired > 1 && !rq.HTTP {
